@@ -116,7 +116,7 @@ func (s *Session) wait() {
 			if w += time.Duration(d) * time.Millisecond; w < 0 {
 				w = w * -1
 			}
-			if w == 0 {
+			if w <= 0 {
 				w = s.sleep
 			}
 		}
